@@ -357,3 +357,6 @@ class GHE(BaseGHE):
         )
 
         self.bhe.b.H = returned_height
+        # the solver's last evaluation is not necessarily at the returned height (e.g. when it is clamped at a
+        # bound): leave the temperatures of the returned height behind, they are what gets reported
+        self.simulate(method=method)
